@@ -571,7 +571,9 @@ def check_order(prog, rep):
            "option values are not kept in insertion order (push_front / reversing / sorting call found: %s; push_back sites: %d)" % (bad, fwd))
     dec = find_body(prog, "packet::Packet::from_bytes")
     if dec is not None:
-        calls = [(bb["term"].get("resolved") or bb["term"].get("callee") or {}).get("path") for bb in dec["blocks"] if bb["term"]["k"] == "call" and not bb["cleanup"]]
+        # (the option walk may sit in a private helper / iterator type of the decoder)
+        calls = [(bb["term"].get("resolved") or bb["term"].get("callee") or {}).get("path") for x in reachable(prog, dec)
+                 for bb in x["blocks"] if bb["term"]["k"] == "call" and not bb["cleanup"]]
         rep.ob("C01.7", "decoder-appends", "alloc::collections::linked_list::LinkedList::<T, A>::push_back" in calls
                and "alloc::collections::linked_list::LinkedList::<T, A>::push_front" not in calls,
                "the decoder does not append repeated option values in wire order")
